@@ -213,6 +213,9 @@ func hasDirOnDisk(a *Abs, d string) bool {
 }
 
 func plainBranchName(n string) bool {
+	if n == "-" {
+		return true // a lone dash is an argument, not a flag, and Goit takes it as a name
+	}
 	if n == "" || strings.HasPrefix(n, ".") || strings.HasPrefix(n, "-") {
 		return false
 	}
@@ -298,7 +301,7 @@ func Allowed(a *Abs, st Step) []Out {
 
 func hasFlagLike(args []string) bool {
 	for _, x := range args {
-		if strings.HasPrefix(x, "-") {
+		if strings.HasPrefix(x, "-") && x != "-" {
 			return true
 		}
 	}
